@@ -478,4 +478,52 @@ def apply (s : State) : Op → State
   | .keepAt a qa p => (keepAt s a qa p).1
   | .oracle os => { s with oracle := os }
 
+/-! ### Interleaved subroutines
+
+`execute_subroutine` is a generator: a runtime may keep subroutines of several applications in
+flight and advance them in any order.  The finest granularity at which the harness switches is one
+instruction (different applications may interleave per instruction), which subsumes every switch at
+the executor's own yield points (`qfree`, waits, simulator hooks). -/
+
+/-- a subroutine in flight: application, code, program counter, final outcome once finished -/
+structure Sub where
+  a : Nat
+  prog : List Instr
+  pc : Int
+  fin : Option Outcome
+
+structure Sys where
+  s : State
+  subs : List Sub
+
+def sys0 : Sys := ⟨init0, []⟩
+
+/-- outcome bookkeeping after one instruction: the executor immediately performs the next loop test
+and fetch (`while pc < len: command = commands[pc]`) before it is suspended again -/
+def afterTick (prog : List Instr) (r : RunOut) : Option Outcome :=
+  match r.out with
+  | .outOfFuel => if (pyIdx prog.length r.pc).isNone then some (.fault .fetch none) else none
+  | o => some o
+
+/-- advance subroutine number `i` by one instruction (no-op when it does not exist or has finished) -/
+def tick (hw : Bool) (sys : Sys) (i : Nat) : Sys :=
+  match sys.subs[i]? with
+  | none => sys
+  | some sb =>
+    match sb.fin with
+    | some _ => sys
+    | none =>
+      let r := run hw sb.a sb.prog 1 sys.s sb.pc
+      ⟨r.s, sys.subs.set i { sb with pc := r.pc, fin := afterTick sb.prog r }⟩
+
+inductive IOp
+  | base (op : Op)                         -- any sequential operation (subroutines run to completion)
+  | spawn (a : Nat) (prog : List Instr)    -- a new subroutine is handed to the executor
+  | tick (hw : Bool) (i : Nat)             -- the runtime resumes subroutine `i` for one instruction
+
+def iapply (sys : Sys) : IOp → Sys
+  | .base op => ⟨apply sys.s op, sys.subs⟩
+  | .spawn a prog => ⟨sys.s, sys.subs ++ [⟨a, prog, 0, none⟩]⟩
+  | .tick hw i => tick hw sys i
+
 end NQ.Exec
